@@ -20,7 +20,7 @@ def build(a, rng):
     if tc["muts"] and rng.random() < 0.4:
         tcgen.known_times(tc, a)
     t = tcgen.build_tc(tc, cmap, tmap)
-    abstr.decorate(t, rng, n_ind=rng.randint(0, 3), n_pop=rng.randint(0, 3))
+    abstr.decorate(t, rng, n_ind=rng.randint(0, 4), n_pop=rng.randint(0, 3), ind_parents=True, p_ind=0.8)
     t.build_index()
     return t, cmap, tmap
 
@@ -41,6 +41,12 @@ def separable(ts, A, B):
             return False
     # an individual referenced from an A-only and a B-only node must also be referenced from a shared node
     shared = sa & sb
+    # a part must contain the parents of its individuals (subset drops references to individuals it does not retain)
+    for part in (sa, sb):
+        inds = {ts.node(u).individual for u in part} - {-1}
+        for i in inds:
+            if any(p != -1 and p not in inds for p in ts.individual(i).parents):
+                return False
     for ind in range(ts.num_individuals):
         nodes = [u for u in range(ts.num_nodes) if ts.node(u).individual == ind]
         if any(u in sa - sb for u in nodes) and any(u in sb - sa for u in nodes) and not any(u in shared for u in nodes):
@@ -76,7 +82,10 @@ def drive_(a, rng):
     rest = [u for u in range(N) if times[u] < cutoff]
     rng.shuffle(rest)
     kk = rng.randint(0, len(rest))
-    PA, PB = shared + rest[:kk], shared + rest[kk:]
+    # the shared nodes appear in a different order in the two parts: node_mapping is not the identity on them
+    sharedB = shared[:]
+    rng.shuffle(sharedB)
+    PA, PB = shared + rest[:kk], sharedB + rest[kk:]
     addpop = rng.random() < 0.5
     case.update(union_skip=1, inverse_applicable=0, inverse_same=0, tamper_skip=1, tamper_check=0, tamper_raised=0, clean_raised=0,
                 addpop=1 if addpop else 0, mapping=[], ua=case["a"], ub=case["a"], uni=case["a"])
@@ -84,7 +93,7 @@ def drive_(a, rng):
     ta.subset(PA, record_provenance=False, reorder_populations=False)
     tb = ts.dump_tables()
     tb.subset(PB, record_provenance=False, reorder_populations=False)
-    mapping = [i if i < len(shared) else -1 for i in range(len(PB))]
+    mapping = [PA.index(PB[i]) if i < len(shared) else -1 for i in range(len(PB))]
     tb2 = tb.copy()
     retag(tb2, 100)
     # with re-tagged rows the shared parts differ in metadata -> compare without the check, or use the un-retagged copy
